@@ -24,8 +24,14 @@ for d in sorted(os.listdir(os.path.join(HERE, "seeded"))):
         out["patch_applies"] = a.returncode == 0
         t = subprocess.run(["/venv/bin/python", "-m", "pytest", "-q", "-p", "no:cacheprovider", "--timeout=900"], cwd=wt,
                            capture_output=True, text=True, timeout=1800)
-        m = re.findall(r"\d+ passed[^\n]*", t.stdout)
-        out["tests_with_patch"] = m[-1] if m else t.stdout[-200:]
+        m = re.findall(r"[^\n]*\d+ passed[^\n]*", t.stdout)
+        out["tests_with_patch"] = m[-1].strip() if m else t.stdout[-200:]
+        if "failed" in out["tests_with_patch"] or "error" in out["tests_with_patch"]:
+            # integration tests are timing sensitive under load: once more, alone
+            t = subprocess.run(["/venv/bin/python", "-m", "pytest", "-q", "-p", "no:cacheprovider", "--timeout=900"], cwd=wt,
+                               capture_output=True, text=True, timeout=1800)
+            m = re.findall(r"[^\n]*\d+ passed[^\n]*", t.stdout)
+            out["tests_with_patch"] += " | again: " + (m[-1].strip() if m else t.stdout[-200:])
         r = subprocess.run(["/venv/bin/python", os.path.join(sd, "demo.py"), wt], capture_output=True, text=True, timeout=900)
         out["demo_with_patch"] = "exit %d" % r.returncode
         out["check_with_patch"] = []
